@@ -183,6 +183,8 @@ func c17(c *Ctx) (*report.Result, error) {
 	res.Assumptions = []string{"encoding.GetCodecV2(proto.Name) is the standard protobuf codec", "strings.ToValidUTF8 replaces exactly the invalid byte runs"}
 	res.RuleDoc["O17.7"] = "translation, access control and repair keep no memory between messages: no shipped function of the interceptor, proto/compat, auth and collect packages stores into package-level state, receiver fields or sync.Maps after construction - a cache keyed by message type or content makes the treatment of one message depend on the ones before it"
 	checkStateless(c, res, "O17.7", []string{"interceptor", "proto/compat", "auth", "collect"}, map[string]string{})
+	res.RuleDoc["O17.11"] = "what is repaired is the payload that failed to decode (same analysis as O18.9): the repair path decodes data.Materialize(), the codec's own copy, and no pooled buffer is freed in package compat"
+	checkCodecPayloadOwned(c, res, "O17.11")
 	res.RuleDoc["O17.10"] = "nothing but the error class gates the repair: from the true side of IsInvalidUTF8Error every path of the codec's Unmarshal reaches convertAndRepairInvalidUTF8"
 	checkRepairGate(c, res, "O17.10")
 	res.RuleDoc["O17.9"] = "an unrepairable message comes back as an error, not as a panic: every WithLabelValues call with an explicit value list in the codec, the interceptor and the compat package passes exactly as many values as the metric vector was declared with (label counts are computed from package metrics' initialiser) - prometheus panics on a mismatch, and the variadic signature lets a stale call site compile"
